@@ -71,6 +71,20 @@ def diff_server(r, oracle_lines):
     return diff_lines(r["cases"], r["model"], r["impl"], cls=cls)
 
 
+def spec_failures(r):
+    """The server model (Auth.v) is the property's own oracle (a permission / batch model with proved theorems): the FIRST request of a
+    sequence on which the real server's answer or observable state differs from it is reported as a failure of class `model-mismatch`
+    carrying the request sequence since the last reset — a concrete failing history instead of a bare correspondence break."""
+    cases, model, impl = r["cases"], r["model"], r["impl"]
+    for i, (c, m, x) in enumerate(zip(cases, model, impl)):
+        if m != x:
+            start = max([j for j in range(i + 1) if " reset" in cases[j][:16]] or [0])
+            seq = [cases[j] for j in range(start, i + 1)]
+            return [dict(cls="model-mismatch", what="request %s: server answered/ended in `%s`, the permission model says `%s`; sequence: %s"
+                         % (c[:300], x[:1200], m[:1200], " ;; ".join(seq)[-6000:]), sequence=seq[-400:])]
+    return []
+
+
 def driver_query(exe, lines):
     p = subprocess.run([exe], input=("\n".join(lines) + "\n").encode(), stdout=subprocess.PIPE, stderr=subprocess.PIPE, timeout=600)
     return p.stdout.decode("utf-8", "replace").splitlines()
